@@ -38,8 +38,15 @@ func ruleSignBytes(c *eng.Ctx) {
 		ast.Inspect(fi.Decl.Body, func(m ast.Node) bool {
 			as, ok := m.(*ast.AssignStmt)
 			if ok && len(as.Rhs) == 1 && len(as.Lhs) == 2 {
-				if call, ok := as.Rhs[0].(*ast.CallExpr); ok && eng.CalleeName(info, call) == "internal/core/block.(*Block).Marshal" {
-					bytesObj, marshal = eng.ObjOf(info, as.Lhs[0]), call
+				if call, ok := as.Rhs[0].(*ast.CallExpr); ok {
+					if eng.CalleeName(info, call) == "internal/core/block.(*Block).Marshal" {
+						bytesObj, marshal = eng.ObjOf(info, as.Lhs[0]), call
+					} else if h := c.P.FuncOfObj(eng.Callee(info, call)); h != nil && h.Pkg == fi.Pkg {
+						// a helper that encodes everything but the signature link (shared with the verifier)
+						if ok, _ := coversAllButSignature(h); ok {
+							bytesObj, marshal = eng.ObjOf(info, as.Lhs[0]), call
+						}
+					}
 				}
 			}
 			return true
@@ -74,39 +81,10 @@ func ruleSignBytes(c *eng.Ctx) {
 	}
 	if fi := c.Anchor(rule, "internal/core/block.getBlockBytesToSign"); fi != nil {
 		info := fi.Pkg.TypesInfo
-		// works on a copy whose Signature is nil and marshals that copy with BlockSchema
-		var cp types.Object
-		ast.Inspect(fi.Decl.Body, func(m ast.Node) bool {
-			as, ok := m.(*ast.AssignStmt)
-			if ok && len(as.Lhs) == 1 && len(as.Rhs) == 1 {
-				if _, isStar := ast.Unparen(as.Rhs[0]).(*ast.StarExpr); isStar {
-					cp = eng.ObjOf(info, as.Lhs[0])
-				}
-			}
-			return true
-		})
-		cleared, marshalled := false, false
-		ast.Inspect(fi.Decl.Body, func(m ast.Node) bool {
-			switch x := m.(type) {
-			case *ast.AssignStmt:
-				if len(x.Lhs) == 1 && isFieldNamed(info, x.Lhs[0], "Signature") {
-					if se := ast.Unparen(x.Lhs[0]).(*ast.SelectorExpr); eng.ObjOf(info, se.X) == cp {
-						if tv, ok := info.Types[x.Rhs[0]]; ok && tv.IsNil() {
-							cleared = true
-						}
-					}
-				}
-			case *ast.CallExpr:
-				if eng.CalleeName(info, x) == "internal/core/block.marshalNode" && len(x.Args) == 2 && cp != nil && mentionsObj(info, x.Args[0], cp) {
-					if o := selObj(info, x.Args[1]); o != nil && o.Name() == "BlockSchema" {
-						marshalled = true
-					}
-				}
-			}
-			return true
-		})
-		c.Check(cp != nil && cleared && marshalled, rule, "getBlockBytesToSign:copy-without-signature", fi.Decl.Pos(), "verifier hashes a copy of the block with the signature link cleared, encoded with the block schema",
-			"getBlockBytesToSign does not marshal a copy of the block with Signature cleared under BlockSchema: verifier and signer hash different bytes (or the caller's block is mutated)")
+		ok, why := coversAllButSignature(fi)
+		c.Check(ok, rule, "getBlockBytesToSign:copy-without-signature", fi.Decl.Pos(), "verifier hashes every field of the block except the signature link, encoded with the block schema",
+			"getBlockBytesToSign does not encode every field of the block except Signature under BlockSchema ("+why+"): verifier and signer hash different bytes, or a field is left outside the signature and can be replaced on a signed block")
+		_ = info
 		// Block.Marshal uses the same marshalNode/BlockSchema
 		if bm := c.P.Func("internal/core/block.(*Block).Marshal"); bm != nil {
 			bi := bm.Pkg.TypesInfo
@@ -453,4 +431,102 @@ func ruleSigTypeTables(c *eng.Ctx) {
 	}
 	c.Check(good, rule, "signBlock≡getPublicKeyFromSignature:key-type-table", sign.Decl.Pos(), fmt.Sprintf("tables agree: %v", s),
 		fmt.Sprintf("signer maps key types to signature types %v but the verifier maps back %v: signatures of one key type are verified as another (and fail) or not at all", s, v))
+}
+
+// coversAllButSignature: the function encodes, with marshalNode(·, BlockSchema), a value holding
+// every field of its *Block parameter except Signature: either a value copy of the block whose
+// Signature is set to nil, or a Block literal naming every other field of the struct.
+func coversAllButSignature(fi *eng.FuncInfo) (bool, string) {
+	info := fi.Pkg.TypesInfo
+	var param types.Object
+	for _, p := range paramObjs(info, fi.Decl) {
+		if strings.HasSuffix(eng.TypeName(p.Type()), "internal/core/block.Block") {
+			param = p
+		}
+	}
+	if param == nil {
+		return false, "no *Block parameter"
+	}
+	var encoded types.Object // local handed to marshalNode under BlockSchema
+	ast.Inspect(fi.Decl.Body, func(m ast.Node) bool {
+		if x, ok := m.(*ast.CallExpr); ok && eng.CalleeName(info, x) == "internal/core/block.marshalNode" && len(x.Args) == 2 {
+			if o := selObj(info, x.Args[1]); o != nil && o.Name() == "BlockSchema" {
+				ast.Inspect(x.Args[0], func(y ast.Node) bool {
+					if id, ok := y.(*ast.Ident); ok {
+						if v, isVar := info.Uses[id].(*types.Var); isVar && !v.IsField() {
+							encoded = v
+						}
+					}
+					return true
+				})
+			}
+		}
+		return true
+	})
+	if encoded == nil {
+		return false, "nothing is encoded with marshalNode(·, BlockSchema)"
+	}
+	if encoded == param {
+		return false, "the caller's block is encoded as it is, signature link included"
+	}
+	copied, cleared := false, false
+	var missing []string
+	literal := false
+	ast.Inspect(fi.Decl.Body, func(m ast.Node) bool {
+		as, ok := m.(*ast.AssignStmt)
+		if !ok || len(as.Lhs) != 1 || len(as.Rhs) != 1 {
+			return true
+		}
+		if eng.ObjOf(info, as.Lhs[0]) == encoded {
+			rhs := ast.Unparen(as.Rhs[0])
+			if st, ok := rhs.(*ast.StarExpr); ok && eng.ObjOf(info, st.X) == param {
+				copied = true
+			}
+			if u, ok := rhs.(*ast.UnaryExpr); ok {
+				rhs = ast.Unparen(u.X)
+			}
+			if cl, ok := rhs.(*ast.CompositeLit); ok && strings.HasSuffix(eng.TypeName(info.TypeOf(cl)), "internal/core/block.Block") {
+				literal = true
+				st, _ := info.TypeOf(cl).Underlying().(*types.Struct)
+				named := map[string]bool{}
+				for _, el := range cl.Elts {
+					if kv, ok := el.(*ast.KeyValueExpr); ok {
+						if id, ok := kv.Key.(*ast.Ident); ok {
+							// initialised from the same field of the parameter
+							if se, ok := ast.Unparen(kv.Value).(*ast.SelectorExpr); ok && se.Sel.Name == id.Name && eng.ObjOf(info, se.X) == param {
+								named[id.Name] = true
+							}
+						}
+					}
+				}
+				for i := 0; st != nil && i < st.NumFields(); i++ {
+					if f := st.Field(i).Name(); f != "Signature" && !named[f] {
+						missing = append(missing, f)
+					}
+				}
+				if named["Signature"] {
+					missing = append(missing, "Signature is included")
+				}
+			}
+		}
+		if isFieldNamed(info, as.Lhs[0], "Signature") {
+			if se := ast.Unparen(as.Lhs[0]).(*ast.SelectorExpr); eng.ObjOf(info, se.X) == encoded {
+				if tv, ok := info.Types[as.Rhs[0]]; ok && tv.IsNil() {
+					cleared = true
+				}
+			}
+		}
+		return true
+	})
+	switch {
+	case copied && cleared:
+		return true, ""
+	case copied:
+		return false, "the copy keeps its signature link"
+	case literal && len(missing) == 0:
+		return true, ""
+	case literal:
+		return false, "fields left out of the signed bytes: " + strings.Join(missing, ", ")
+	}
+	return false, "the encoded value is neither a copy of the block nor a literal naming its fields"
 }
